@@ -125,7 +125,15 @@ def main(argv):
     if argv[0] == "pinned":
         tier = "quick"
         checks = ["C%02d" % i for i in range(1, 21)]
+        for i, a in enumerate(argv):
+            if a == "--checks":
+                checks = argv[i + 1].split(",")
         res = pinned(checks, tier)
+        path = os.path.join(SEEDED, "pinned-tree.json")
+        if os.path.exists(path) and len(checks) < 20:
+            old = json.load(open(path)).get("results", {})
+            old.update(res)
+            res = old
         json.dump({"commit": PINNED, "tier": tier, "results": res,
                    "note": "checks run against the pinned commit, before the fix: commits; rc=1 means the check reports "
                            "the defects of the pinned tree (see known_findings.json 'fixed')"},
